@@ -6,6 +6,7 @@ The ...Match classes trim the reads.
 """
 
 import logging
+import math
 from enum import IntFlag
 from collections import defaultdict
 from typing import Optional, Tuple, Sequence, Dict, Any, List, Union
@@ -596,7 +597,14 @@ class SingleAdapter(Adapter, ABC):
         if not self.sequence:
             raise ValueError("Adapter sequence is empty")
         if max_errors >= 1 and self.sequence.count("N") != len(self.sequence):
-            max_errors /= len(self.sequence) - self.sequence.count("N")
+            effective_length = len(self.sequence) - self.sequence.count("N")
+            allowed_errors = max_errors
+            max_errors /= effective_length
+            # The rate is multiplied by the length again to find the number of
+            # allowed errors. Avoid getting one error too few because of
+            # floating-point rounding (1 / 49 * 49 is 0.9999999999999999)
+            while max_errors * effective_length < allowed_errors:
+                max_errors = math.nextafter(max_errors, math.inf)
         self.max_error_rate: float = max_errors
         self.min_overlap: int = min(min_overlap, len(self.sequence))
         iupac = frozenset("ABCDGHKMNRSTUVWXY")
